@@ -377,3 +377,22 @@ pub fn lane_indexes(shape: &[usize], axis: usize) -> Vec<Vec<usize>> {
     }
     out
 }
+
+/// C03 oracle: every lane along `axis` holds the same multiset of bit patterns as before.
+pub fn lanes_preserved<T: El>(before: &[T], after: &[T], shape: &[usize], axis: usize) -> Result<(), String> {
+    for (l, idx) in lane_indexes(shape, axis).iter().enumerate() {
+        let b = multiset(idx.iter().map(|&i| before[i].clone()));
+        let a = multiset(idx.iter().map(|&i| after[i].clone()));
+        if a != b {
+            return Err(format!(
+                "lane {} along axis {} changed its multiset: before {:?}, after {:?}",
+                l,
+                axis,
+                idx.iter().map(|&i| &before[i]).collect::<Vec<_>>(),
+                idx.iter().map(|&i| &after[i]).collect::<Vec<_>>()
+            ));
+        }
+    }
+    Ok(())
+}
+
